@@ -55,6 +55,8 @@ pub enum Rk {
     VirtualTail(usize),
     /// contract reader whose `T` is a lease that wipes its octets when dropped
     Wiping,
+    /// owning reader whose sub-reader / bytes calls each take that many microseconds
+    Slow(u64),
 }
 
 pub const ALL_READERS: [Rk; 4] = [Rk::Slice, Rk::ContractSlice, Rk::ContractVec, Rk::Segmented(3)];
@@ -160,6 +162,7 @@ pub fn decode_msg(b: &[u8], o: Option<SOpts>, rk: Rk) -> Run<SMsg> {
         Rk::Wiping => {
             let log = RLog::new(boxed.len());
             let l2 = log.clone();
+            crate::monitor::reader::reset_live_leases();
             let e = catch(|| {
                 let mut r: ContractReader<WipingBuf> = ContractReader::new(&boxed, l2);
                 let res = match o {
@@ -169,6 +172,17 @@ pub fn decode_msg(b: &[u8], o: Option<SOpts>, rk: Rk) -> Run<SMsg> {
                 (res.map(|m| glue::msg_to_spec(&m)), r.remaining())
             });
             finish(e, Some(log), |m| m)
+        }
+        Rk::Slow(us) => {
+            let e = catch(|| {
+                let mut r = crate::monitor::reader::SlowReader::new(&boxed, std::time::Duration::from_micros(us));
+                let res = match o {
+                    Some(o) => Message::<Vec<u8>>::try_read_validate(&mut r, glue::opts(o)),
+                    None => Message::<Vec<u8>>::try_read(&mut r),
+                };
+                (res.map(|m| glue::msg_to_spec(&m)), r.remaining())
+            });
+            finish(e, None, |m| m)
         }
         Rk::VirtualTail(tail) => {
             let e = catch(|| {
@@ -195,11 +209,11 @@ pub fn decode_avps(b: &[u8], rk: Rk) -> Run<AvpList> {
     let (placed_box, shift) = placed(b);
     let boxed: &[u8] = &placed_box[shift..];
     let rk = match rk {
-        Rk::Reentrant(_) | Rk::VirtualTail(_) | Rk::Wiping => Rk::ContractVec,
+        Rk::Reentrant(_) | Rk::VirtualTail(_) | Rk::Wiping | Rk::Slow(_) => Rk::ContractVec,
         k => k,
     };
     match rk {
-        Rk::Reentrant(_) | Rk::VirtualTail(_) | Rk::Wiping => unreachable!(),
+        Rk::Reentrant(_) | Rk::VirtualTail(_) | Rk::Wiping | Rk::Slow(_) => unreachable!(),
         Rk::Slice => {
             let e = catch(|| {
                 let mut r = SliceReader::from(&boxed);
@@ -296,11 +310,11 @@ pub fn decode_type(attr: u16, payload: &[u8], rk: Rk) -> Option<Run<SAvp>> {
     let boxed: &[u8] = &placed_box[shift..];
     let one = |r: Result<AVP, DecodeError>| r.map(|a| glue::avp_to_spec(&a)).map_err(|e| vec![e]);
     let rk = match rk {
-        Rk::Reentrant(_) | Rk::VirtualTail(_) | Rk::Wiping => Rk::ContractVec,
+        Rk::Reentrant(_) | Rk::VirtualTail(_) | Rk::Wiping | Rk::Slow(_) => Rk::ContractVec,
         k => k,
     };
     Some(match rk {
-        Rk::Reentrant(_) | Rk::VirtualTail(_) | Rk::Wiping => unreachable!(),
+        Rk::Reentrant(_) | Rk::VirtualTail(_) | Rk::Wiping | Rk::Slow(_) => unreachable!(),
         Rk::Slice => {
             let e = catch(|| {
                 let mut r = SliceReader::from(&boxed);
